@@ -742,6 +742,8 @@ impl Exec {
                         let mms = cfg.get("mms").and_then(|x| x.as_u64());
                         let mut b = Sender::builder().name(name).target("q").sender_settle_mode(snd).receiver_settle_mode(rcv).initial_delivery_count(idc);
                         if let Some(m) = mms { b = b.max_message_size(m); }
+                        // capacity of the session -> link channel
+                        if let Some(n) = cfg.get("lbuf").and_then(|x| x.as_u64()) { b.buffer_size = n as usize; }
                         macro_rules! go { ($v:ident, $w:path) => { tokio::spawn(async move { let mut $v = $v; match b.attach(&mut $v).await {
                             Ok(x) => (ok_json(), Back::SessAndSender(sn, $w($v), ln, Some(x))), Err(e) => (err_json(&e), Back::SessAndSender(sn, $w($v), ln, None)) } }) } }
                         match sess { Sess::C(x) => go!(x, Sess::C), Sess::L(x) => go!(x, Sess::L) }
@@ -749,8 +751,9 @@ impl Exec {
                     "AAttachR" => {
                         let credit = cfg.get("credit").and_then(|x| x.as_i64()).unwrap_or(-1);
                         let aa = cfg.get("auto_accept").and_then(|x| x.as_bool()).unwrap_or(false);
-                        let b = Receiver::builder().name(name).source("q").sender_settle_mode(snd).receiver_settle_mode(rcv).auto_accept(aa)
+                        let mut b = Receiver::builder().name(name).source("q").sender_settle_mode(snd).receiver_settle_mode(rcv).auto_accept(aa)
                             .credit_mode(if credit >= 0 { CreditMode::Auto(credit as u32) } else { CreditMode::Manual });
+                        if let Some(n) = cfg.get("lbuf").and_then(|x| x.as_u64()) { b.buffer_size = n as usize; }
                         macro_rules! go { ($v:ident, $w:path) => { tokio::spawn(async move { let mut $v = $v; match b.attach(&mut $v).await {
                             Ok(x) => (ok_json(), Back::SessAndReceiver(sn, $w($v), ln, Some(x))), Err(e) => (err_json(&e), Back::SessAndReceiver(sn, $w($v), ln, None)) } }) } }
                         match sess { Sess::C(x) => go!(x, Sess::C), Sess::L(x) => go!(x, Sess::L) }
